@@ -103,8 +103,9 @@ func parts(g geom.Geometry) []*flat {
 // ---------------------------------------------------------------- generators
 
 type lgen struct {
-	r *rand.Rand
-	N int // lattice side: ordinates in 0..N
+	r   *rand.Rand
+	N   int // lattice side: ordinates in 0..N
+	Big bool
 }
 
 func (l *lgen) pt() geom.XY {
@@ -465,4 +466,344 @@ func (l *lgen) nestedEmptyHigher() geom.Geometry {
 		g = geom.NewGeometryCollection(outer).AsGeometry()
 	}
 	return g
+}
+
+// ---------------------------------------------------------------- large sizes
+//
+// Thresholds hide in code ("more than 16 rings", "above 64 members", "a buffer of 256 entries"): what is right for
+// every small input can be wrong for every large one. With Big set the generators draw their counts - vertices of a
+// line or ring, members of a Multi* or collection, holes of a polygon - from just above the usual powers of two, one
+// large dimension at a time, on a lattice wide enough to hold them.
+
+// bigCount: a count just above 8, 16, 32 or 64 (small ones more often: the specification's cost grows with it).
+func (l *lgen) bigCount() int {
+	base := []int{9, 9, 9, 17, 17, 17, 17, 33, 33, 65}[l.r.Intn(10)]
+	return base + l.r.Intn(4)
+}
+
+func gcdInt(a, b int) int {
+	if a < 0 {
+		a = -a
+	}
+	if b < 0 {
+		b = -b
+	}
+	for b != 0 {
+		a, b = b, a%b
+	}
+	return a
+}
+
+// halfOf: 0 for directions in [0, pi), 1 for [pi, 2pi) - exact angular order without trigonometry.
+func halfOf(dx, dy int) int {
+	if dy > 0 || (dy == 0 && dx > 0) {
+		return 0
+	}
+	return 1
+}
+
+// starRing: a simple closed ring with n vertices, star-shaped around (cx, cy): n distinct lattice directions in
+// angular order, one vertex on each (at most rad away in the maximum norm). Returns nil when the lattice around the
+// centre has too few directions or the directions leave a gap of half a turn or more.
+func (l *lgen) starRing(cx, cy, rad, n int) []geom.XY {
+	type dir struct{ dx, dy int }
+	var prim []dir
+	for dx := -rad; dx <= rad; dx++ {
+		for dy := -rad; dy <= rad; dy++ {
+			if (dx != 0 || dy != 0) && gcdInt(dx, dy) == 1 {
+				prim = append(prim, dir{dx, dy})
+			}
+		}
+	}
+	if len(prim) < n {
+		return nil
+	}
+	l.r.Shuffle(len(prim), func(i, j int) { prim[i], prim[j] = prim[j], prim[i] })
+	ds := prim[:n]
+	sort.Slice(ds, func(i, j int) bool {
+		hi, hj := halfOf(ds[i].dx, ds[i].dy), halfOf(ds[j].dx, ds[j].dy)
+		if hi != hj {
+			return hi < hj
+		}
+		return ds[i].dx*ds[j].dy-ds[i].dy*ds[j].dx > 0
+	})
+	for i := range ds { // consecutive directions must turn left by less than half a turn
+		a, b := ds[i], ds[(i+1)%n]
+		if a.dx*b.dy-a.dy*b.dx <= 0 {
+			return nil
+		}
+	}
+	pts := make([]geom.XY, 0, n+1)
+	for _, d := range ds {
+		m := d.dx
+		if m < 0 {
+			m = -m
+		}
+		if e := d.dy; e > m {
+			m = e
+		} else if -e > m {
+			m = -e
+		}
+		k := 1 + l.r.Intn(rad/m)
+		pts = append(pts, geom.XY{X: float64(cx + k*d.dx), Y: float64(cy + k*d.dy)})
+	}
+	if l.r.Intn(2) == 0 {
+		for i, j := 0, len(pts)-1; i < j; i, j = i+1, j-1 {
+			pts[i], pts[j] = pts[j], pts[i]
+		}
+	}
+	s := l.r.Intn(len(pts)) // any start vertex
+	pts = append(pts[s:], pts[:s]...)
+	return append(pts, pts[0])
+}
+
+// bigLineString: many vertices. Half of them wander (crossing themselves, as a long track does), half are monotone in X
+// (simple).
+func (l *lgen) bigLineString() geom.LineString {
+	n := l.bigCount()
+	pts := make([]geom.XY, n)
+	if l.r.Intn(2) == 0 {
+		for i := range pts {
+			pts[i] = l.pt()
+		}
+	} else {
+		for i := range pts {
+			x, y := i*l.N/(n-1), l.r.Intn(l.N+1)
+			if i > 0 && float64(x) == pts[i-1].X && float64(y) == pts[i-1].Y {
+				y = (y + 1) % (l.N + 1)
+			}
+			pts[i] = geom.XY{X: float64(x), Y: float64(y)}
+		}
+	}
+	ls := geom.NewLineString(seqOf(pts))
+	if !genValid(ls) {
+		return l.lineString()
+	}
+	return ls
+}
+
+// bigPolygon: one large dimension - a ring of many vertices, or many holes.
+func (l *lgen) bigPolygon() geom.Polygon {
+	for tries := 0; tries < 20; tries++ {
+		var rings []geom.LineString
+		if l.r.Intn(2) == 0 {
+			rad := l.N / 2
+			ring := l.starRing(rad, rad, rad, l.bigCount())
+			if ring == nil {
+				continue
+			}
+			rings = append(rings, geom.NewLineString(seqOf(ring)))
+			if l.r.Intn(3) == 0 && rad >= 8 { // and a hole around the centre, of many vertices or few
+				n := 3 + l.r.Intn(3)
+				if l.r.Intn(2) == 0 {
+					n = l.bigCount()
+				}
+				// the shell's vertices are at least one primitive step away from the centre; a hole strictly inside
+				// the unit diamond of directions cannot be built on the lattice, so validity decides
+				if h := l.starRing(rad, rad, 1+l.r.Intn(2), n); h != nil {
+					rings = append(rings, geom.NewLineString(seqOf(h)))
+				}
+			}
+		} else {
+			rings = append(rings, boxRing(0, 0, l.N, l.N))
+			c := 3 + l.r.Intn(4) // holes of any size up to their cell's, one unit inside it
+			cells := l.N / c
+			nh := l.bigCount()
+			if nh > cells*cells {
+				nh = cells * cells
+			}
+			perm := l.r.Perm(cells * cells)[:nh]
+			for _, k := range perm {
+				x, y := c*(k%cells)+1, c*(k/cells)+1
+				w := c - 2
+				x0, y0 := x+l.r.Intn(w), y+l.r.Intn(w)
+				x1, y1 := x0+1+l.r.Intn(x+w-x0), y0+1+l.r.Intn(y+w-y0)
+				switch l.r.Intn(3) {
+				case 0:
+					rings = append(rings, boxRing(x0, y0, x1, y1))
+				case 1:
+					rings = append(rings, geom.NewLineString(seqOf([]geom.XY{{X: float64(x0), Y: float64(y0)}, {X: float64(x1), Y: float64(y0)}, {X: float64(x0), Y: float64(y1)}, {X: float64(x0), Y: float64(y0)}})))
+				default: // reaches the corner of its cell: may touch a neighbour's hole in one point
+					rings = append(rings, geom.NewLineString(seqOf([]geom.XY{{X: float64(x), Y: float64(y)}, {X: float64(x + c - 1), Y: float64(y + c - 1)}, {X: float64(x), Y: float64(y + 1)}, {X: float64(x), Y: float64(y)}})))
+				}
+			}
+		}
+		p := geom.NewPolygon(rings)
+		if genValid(p) {
+			return p
+		}
+	}
+	return l.polygon()
+}
+
+func (l *lgen) bigMultiPoint() geom.MultiPoint {
+	n := l.bigCount()
+	if l.r.Intn(4) == 0 {
+		n = 129 + l.r.Intn(4)
+	}
+	pts := make([]geom.Point, 0, n+1)
+	if l.r.Intn(3) == 0 {
+		for i := 0; i < n; i++ { // with repetitions
+			pts = append(pts, l.pt().AsPoint())
+		}
+	} else { // n distinct positions (as many as the lattice has)
+		for _, k := range l.r.Perm((l.N + 1) * (l.N + 1)) {
+			if len(pts) == n {
+				break
+			}
+			pts = append(pts, geom.XY{X: float64(k % (l.N + 1)), Y: float64(k / (l.N + 1))}.AsPoint())
+		}
+	}
+	if l.r.Intn(5) == 0 {
+		i := l.r.Intn(len(pts) + 1)
+		pts = append(pts[:i], append([]geom.Point{{}}, pts[i:]...)...)
+	}
+	return geom.NewMultiPoint(pts)
+}
+
+// window: a generator for a small sub-lattice [ox, ox+side] x [oy, oy+side] of l's.
+func (l *lgen) shifted(g geom.Geometry, ox, oy int) geom.Geometry {
+	return g.TransformXY(func(p geom.XY) geom.XY { return geom.XY{X: p.X + float64(ox), Y: p.Y + float64(oy)} })
+}
+
+func (l *lgen) bigMultiLineString() geom.MultiLineString {
+	n := l.bigCount()
+	small := &lgen{r: l.r, N: 3}
+	ls := make([]geom.LineString, 0, n+1)
+	for i := 0; i < n; i++ {
+		g := l.shifted(small.lineString().AsGeometry(), l.r.Intn(l.N-2), l.r.Intn(l.N-2))
+		ls = append(ls, g.MustAsLineString())
+	}
+	if l.r.Intn(5) == 0 {
+		i := l.r.Intn(len(ls) + 1)
+		ls = append(ls[:i], append([]geom.LineString{{}}, ls[i:]...)...)
+	}
+	return geom.NewMultiLineString(ls)
+}
+
+// bigMultiPolygon: many members, one per cell of a grid (four units apart, so never touching), in any order.
+func (l *lgen) bigMultiPolygon() geom.MultiPolygon {
+	cells := l.N / 4
+	n := l.bigCount()
+	if n > cells*cells {
+		n = cells * cells
+	}
+	small := &lgen{r: l.r, N: 3}
+	ps := make([]geom.Polygon, 0, n+1)
+	for _, c := range l.r.Perm(cells * cells)[:n] {
+		g := l.shifted(small.polygon().AsGeometry(), 4*(c%cells), 4*(c/cells))
+		ps = append(ps, g.MustAsPolygon())
+	}
+	if l.r.Intn(5) == 0 {
+		i := l.r.Intn(len(ps) + 1)
+		ps = append(ps[:i], append([]geom.Polygon{{}}, ps[i:]...)...)
+	}
+	mp := geom.NewMultiPolygon(ps)
+	if !genValid(mp) {
+		return l.multiPolygon()
+	}
+	return mp
+}
+
+// bigCollection: many small members of any type (they may overlap, as members of a collection may).
+func (l *lgen) bigCollection() geom.Geometry {
+	n := l.bigCount()
+	small := &lgen{r: l.r, N: 3}
+	gs := make([]geom.Geometry, 0, n)
+	for i := 0; i < n; i++ {
+		gs = append(gs, l.shifted(small.leaf(), l.r.Intn(l.N-2), l.r.Intn(l.N-2)))
+	}
+	return geom.NewGeometryCollection(gs).AsGeometry()
+}
+
+// bigLeaf: type t (0..5) with one large dimension. Points and lines are sometimes confined to a small window of the
+// lattice: a dense cluster far from whatever else there is (nearest-neighbour structures see many close neighbours
+// before the first distant one).
+func (l *lgen) bigLeaf(t int) geom.Geometry {
+	if (t == 0 || t == 1 || t == 3 || t == 4) && l.N >= 8 && l.r.Intn(3) == 0 {
+		return l.clusteredLeaf(t)
+	}
+	switch t {
+	case 0, 3:
+		return l.bigMultiPoint().AsGeometry()
+	case 1:
+		return l.bigLineString().AsGeometry()
+	case 2:
+		return l.bigPolygon().AsGeometry()
+	case 4:
+		return l.bigMultiLineString().AsGeometry()
+	}
+	return l.bigMultiPolygon().AsGeometry()
+}
+
+// clusteredLeaf: points or lines (t = 0, 1, 3, 4) with one large dimension, confined to a small window of the lattice.
+func (l *lgen) clusteredLeaf(t int) geom.Geometry {
+	w := 4 + l.r.Intn(2)
+	if l.N >= 12 {
+		w = 5 + l.r.Intn(4)
+	}
+	sub := &lgen{r: l.r, N: w, Big: true}
+	return l.shifted(sub.bigLeaf(t), l.r.Intn(l.N-w+1), l.r.Intn(l.N-w+1))
+}
+
+// bigAny: any type with one large dimension.
+func (l *lgen) bigAny() geom.Geometry {
+	if l.r.Intn(7) == 0 {
+		return l.bigCollection()
+	}
+	return l.bigLeaf(l.r.Intn(6))
+}
+
+// bigExtra: how many large-size cases follow the n ordinary ones.
+func bigExtra(n int) int {
+	if n > 16000 { // the thorough tier: large cases cost the specification ten times what the others do
+		return 2002 + (n-16000)/40
+	}
+	return 2 + n/8
+}
+
+func bigLattice(r *rand.Rand) *lgen { return &lgen{r: r, N: 16 + r.Intn(25), Big: true} }
+
+// bigLatticeTo: the same with the side limited to lo..hi - the specifications that build the arrangement of two
+// geometries work with the sixth power of the side, and TLC's integers have 32 bits.
+func bigLatticeTo(r *rand.Rand, lo, hi int) *lgen {
+	return &lgen{r: r, N: lo + r.Intn(hi-lo+1), Big: true}
+}
+
+// spanBox: a rectangle over (nearly) the whole lattice, its ring starting at any corner in either orientation.
+func (l *lgen) spanBox() geom.Polygon {
+	in := l.r.Intn(3)
+	lo, hi := float64(in), float64(l.N-in)
+	cs := []geom.XY{{X: lo, Y: lo}, {X: hi, Y: lo}, {X: hi, Y: hi}, {X: lo, Y: hi}}
+	if l.r.Intn(2) == 0 {
+		cs[1], cs[3] = cs[3], cs[1]
+	}
+	k := l.r.Intn(4)
+	cs = append(cs[k:], cs[:k]...)
+	return geom.NewPolygon([]geom.LineString{geom.NewLineString(seqOf(append(cs, cs[0])))})
+}
+
+// bigPair: two operands on a wide lattice, at least one of them with a large dimension; the other one large too, or
+// a rectangle around (nearly) everything, or an ordinary small geometry somewhere on the lattice.
+func (l *lgen) bigPair() (a, b geom.Geometry) {
+	a = l.bigLeaf(l.r.Intn(6))
+	if l.N >= 8 && l.r.Intn(4) == 0 { // many components close together, well inside one ring of the other operand
+		a, b = l.clusteredLeaf([]int{3, 3, 4, 1}[l.r.Intn(4)]), l.spanBox().AsGeometry()
+		if l.r.Intn(2) == 0 {
+			a, b = b, a
+		}
+		return a, b
+	}
+	switch l.r.Intn(4) {
+	case 0:
+		b = l.bigLeaf(l.r.Intn(6))
+	case 1, 2:
+		b = l.spanBox().AsGeometry()
+	default:
+		b = l.any(5)
+	}
+	if l.r.Intn(2) == 0 {
+		a, b = b, a
+	}
+	return a, b
 }
